@@ -159,6 +159,14 @@ func (m *Machine) RunPath(fn *ssa.Function, prefix []Decision, inits []*ssa.Func
 			switch e := r.(type) {
 			case pathEnd:
 				res.Kind, res.Msg = e.kind, e.msg
+				switch e.kind {
+				case "unsupported", "unwind", "steps", "deadlock":
+					// a path that cannot be completed only matters if it is feasible: it may have been
+					// entered because a feasibility query timed out (unknown = keep the branch)
+					if m.pathInfeasible() {
+						res.Kind, res.Msg = "infeasible", "path condition unsatisfiable (entered after an unknown feasibility answer): "+e.msg
+					}
+				}
 			case mergeAbort:
 				res.Kind, res.Msg = "unsupported", "merge abort escaped: "+e.why
 			default:
@@ -819,3 +827,18 @@ var slowLog func(string)
 // declined marks a decision slot where a soft concretisation attempt gave up (so that
 // replays of this prefix take the same route).
 const declined = -1 << 40
+
+// pathInfeasible: is the current path condition unsatisfiable (decided with the escalating
+// non-incremental solvers)?
+func (m *Machine) pathInfeasible() (infeasible bool) {
+	defer func() {
+		if r := recover(); r != nil {
+			infeasible = false
+		}
+	}()
+	if m.sol.dead {
+		return false
+	}
+	r, _ := m.check(m.ctx.Bool(true), true)
+	return r == RUnsat
+}
